@@ -109,6 +109,20 @@ func genC04(t *rapid.T) any {
 		if p.kind != "int" {
 			continue
 		}
+		if rapid.IntRange(0, 5).Draw(t, fmt.Sprintf("gotype.big%d", i)) == 0 {
+			// both sides of the pair hold integers that float64 cannot tell apart
+			big := rapid.SampledFrom([]string{"bigint64", "biguint64"}).Draw(t, fmt.Sprintf("gotype.bigtype%d", i))
+			ok := true
+			for _, v := range p.pool {
+				if f, isNum := v.(float64); !isNum || !fitsGoType(f, big) {
+					ok = false
+				}
+			}
+			if ok {
+				c.GoTypes["l"][p.l], c.GoTypes["r"][p.r] = big, big
+				continue
+			}
+		}
 		if typ := genGoTypesForPool(t, p.pool, fmt.Sprintf("gotype.l%d", i)); typ != "" {
 			c.GoTypes["l"][p.l] = typ
 		}
@@ -360,6 +374,17 @@ func checkC04(c *C04Case) Result {
 	if reps <= 0 {
 		reps = 1
 	}
+	big := false
+	for _, cols := range c.GoTypes {
+		for _, typ := range cols {
+			if strings.HasPrefix(typ, "big") {
+				big = true
+			}
+		}
+	}
+	if big {
+		res.Labels = append(res.Labels, "keys-beyond-2^53")
+	}
 	run := func(sql string, label string) string {
 		out := c.Env.Exec(typedDoc(c.Doc, c.GoTypes), sql)
 		res.Execs++
@@ -367,6 +392,9 @@ func checkC04(c *C04Case) Result {
 			return fmt.Sprintf("%s\n  expected multiset %s\n  got %s", sql, val.JSON(want), out.Describe())
 		}
 		got := normJoinRows(out.Rows)
+		if big {
+			got = normJoinRows(val.NormRows(unbig(out.Raw).([]any)))
+		}
 		if !val.MultisetEqual(got, want) {
 			return fmt.Sprintf("%s (%s)\n  expected multiset (%d rows) %s\n  got               (%d rows) %s", sql, label, len(want), val.JSON(want), len(got), val.JSON(got))
 		}
